@@ -478,5 +478,5 @@ Holds(c, step, g, g2) ==
         /\ \A j \in 1..nPost : \A k, l \in 1..Len(post.bids[j]) : k # l => post.bids[j][k].id # post.bids[j][l].id
         /\ (nPost > nPre => m.a \in {"CreateFixed", "CreateBatch"})
 
-Fails(step, g, g2, cs) == {c \in cs : ~Holds(c, step, g, g2)}
+Fails(step, g, g2, cs) == {c \in cs \cap ClauseIds : ~Holds(c, step, g, g2)}
 =============================================================================
